@@ -6,7 +6,9 @@
 // All signatures below fail on the unchanged tree, were reproduced in a fresh process through
 // `VERIF_REPLAY=<fail record> go test -run 'TestReplay$'`, and are kept failing by the checks.  The
 // generators steer around each one when it is listed in $VERIF_KNOWN_SIGS (stats.Excluded counts the
-// altered cases), so the search continues behind them.  To list every gate signature deterministically:
+// altered cases), so the search continues behind them.  One fail record per signature is in
+// props/c02/replays/ (each verified to replay with exactly its signature), the matching KNOWN_FINDINGS lines
+// are in props/c02/known_entries.txt.  To list every gate signature deterministically:
 //
 //	VERIF_C02_LIST_ALL=1 go test ... -run 'TestC02GateSweepDirected$' -v   (prints DIRECTED-FINDING lines)
 //
@@ -79,8 +81,8 @@
 //
 // Analysis.  Partition() (/repo/datatype/roi/roi.go:1099-1111, 1240-1253) takes the z range of the ROI from
 // d.MinZ / d.MaxZ, which are instance-level Properties (roi.go:251-259) persisted in the instance metadata,
-// not per version; PutSpans recomputes them from the posted spans only (roi.go:653-657 after the reset) and
-// Delete resets them (roi.go:588-589), whatever version the request addresses.  So a read of versioned
+// not per version; POST roi first calls Delete (roi.go:624-628), which resets them (roi.go:588-589), and then
+// recomputes them from the posted spans only (roi.go:653-657), whatever version the request addresses.  So a read of versioned
 // content at a committed version depends on the last write anywhere in the DAG.  The partition is derived
 // from the ROI spans the statement lists; the check therefore counts it as versioned content.
 //
@@ -105,7 +107,15 @@
 // 2085) read the MaxLabel map without mlMu while the background updateMaxLabel goroutine of a label write
 // holds mlMu and writes it: "fatal error: concurrent map iteration and map write" killed 2 of ~60 sweep
 // processes.  This package keeps its own instance list and reads note/log/commit through the node GET
-// routes, so the repo info JSON is off its hot path.
+// routes, so the repo info JSON is off its hot path.  A second pair with the same fatal error needs no
+// harness call at all: labelvol.(*Data).GobEncode (/repo/datatype/labelvol/labelvol.go:872-882) gob-encodes
+// Properties with the MaxLabel map (labelvol.go:468) without mlMu; a labelblk POST raw starts
+// `go PostExtents` (/repo/datatype/imageblk/imageblk.go:1434-1474), which on grown extents calls
+// datastore.SaveDataByVersion = gob-encode of every instance of the repo, while labelvol's sync goroutine
+// for the same write stores into MaxLabel (labelvol.go:736, 813).  Seen once in 15 runs of 40 sweep cases;
+// the labelblk/labelvol fixtures now write background voxels over the whole extent on the root
+// (labelblkZero), so later writes do not grow the extents.  If a shard still dies with this fatal error the
+// driver reports the run as inconclusive, not as a violation.
 //
 // N4 (input validation, C20's subject; counted as sweep/panic-response-on-malformed-request/...).  Junk
 // requests made the recover middleware answer "Panic detected": POST|DELETE lm/proximity, lm/index, lm/merge
